@@ -11,7 +11,7 @@ Require Import KV.Model.Prelude KV.Model.Condensed KV.Model.Active KV.Model.Dend
   KV.Proofs.SortProofs KV.Proofs.OrderOnly KV.Proofs.RelabelWF KV.Proofs.PrimThreshold KV.Proofs.MstPrim KV.Proofs.MstCuts
   KV.Proofs.LWInvariant KV.Model.Chain KV.Proofs.MstWF KV.Proofs.MstTotal KV.Proofs.ChainIter KV.Proofs.ChainInstances
   KV.Model.Generic KV.Model.Primitive KV.Proofs.PrimitiveTotal KV.Proofs.GenericInv KV.Proofs.GenericInstances
-  KV.Proofs.CriteriaRun KV.Proofs.SingleCuts KV.Proofs.SpanningTrees KV.Proofs.MstWeights KV.Proofs.MstWeightsRun KV.Proofs.Shape KV.Proofs.AgreeSingle KV.Proofs.SingleReplay.
+  KV.Proofs.CriteriaRun KV.Proofs.SingleCuts KV.Proofs.SpanningTrees KV.Proofs.MstWeights KV.Proofs.MstWeightsRun KV.Proofs.Shape KV.Proofs.AgreeSingle KV.Proofs.SingleReplay KV.Proofs.SlotProbe.
 From Coq Require Import Relations Permutation.
 
 Set Implicit Arguments.
@@ -514,6 +514,88 @@ Proof.
     destruct (G2 Hstrict1 j t0 E0) as (x & y & Hx & Hy & Lx & Ly & Hd').
     exists x, y. rewrite Hsteps, !labi_map, Hobs. split; [lia|]. split; [lia|]. split; [exact Lx|]. split; [exact Ly|].
     rewrite HM01, dcell_map. exact Hd'.
+Qed.
+
+(* ---- C07, observable consequence, on the full carrier ---- *)
+Lemma sub_run (p : profile) (a : algo) s d (m : list T) (n : N) s' d' m' M0 :
+  run_with F p a Single s d m n = Ok (s', d', m') ->
+  prologue p m n = Ok M0 ->
+  Forall (fun v => ok v = true) m ->
+  Forall (fun v => f_ltb F v (f_inf F) = true) m ->
+  exists m1 ss ds ms M1,
+    map g m1 = m /\ run_with FS p a Single (st_new sub) (d_new sub 0) m1 n = Ok (ss, ds, ms)
+    /\ d' = map_dend g ds /\ prologue p m1 n = Ok M1
+    /\ M0 = {| m_data := map g (m_data M1); m_obs := m_obs M1 |}
+    /\ Forall (fun v => f_ltb FS v (f_inf FS) = true) m1.
+Proof.
+  intros Hrun HM0 Hok Hfin.
+  destruct (lift_list Hok) as (m1 & Hm1).
+  pose proof (@order_only sub T g (fun _ => True) FS F p
+                (fun x y _ _ => eq_refl) (fun x y _ _ => eq_refl) (conj I eq_refl) (conj I eq_refl)
+                a Single m1 n (st_new sub) (d_new sub 0) s d (or_introl eq_refl)
+                ltac:(apply Forall_forall; intros; exact I)) as Hoo.
+  rewrite Hm1, Hrun in Hoo. cbn [out_of] in Hoo.
+  destruct (run_with FS p a Single (st_new sub) (d_new sub 0) m1 n) as [[[ss ds] ms]| |] eqn:Hrun1;
+    cbn [out_of map_out] in Hoo; try discriminate.
+  injection Hoo as Hd Hm.
+  assert (HM1 : exists M1, prologue p m1 n = Ok M1 /\ M0 = {| m_data := map g (m_data M1); m_obs := m_obs M1 |}).
+  { unfold prologue in HM0 |- *. rewrite <- Hm1, map_length in HM0.
+    destruct (shape_check p n (N.of_nat (length m1))) as [q| |]; cbn [bind] in *; try discriminate.
+    destruct (obs_to_nat q) as [q'| |]; cbn [bind] in *; try discriminate.
+    eexists. split; [reflexivity|]. inversion HM0; subst. cbn [m_data m_obs]. reflexivity. }
+  destruct HM1 as (M1 & HM1 & HM01).
+  exists m1, ss, ds, ms, M1. split; [exact Hm1|]. split; [exact Hrun1|]. split; [exact Hd|]. split; [exact HM1|]. split; [exact HM01|].
+  rewrite Forall_forall in Hfin |- *. intros v Hv. apply (Hfin (g v)). rewrite <- Hm1. apply in_map. exact Hv.
+Qed.
+
+Theorem single_first_step_probe_carrier (p : profile) (a0 : algo) s d (m : list T) (n : N) s' d' m' M0 (a b : nat) :
+  (n < two32)%N ->
+  run_with F p a0 Single s d m n = Ok (s', d', m') ->
+  prologue p m n = Ok M0 ->
+  Forall (fun v => ok v = true) m ->
+  Forall (fun v => f_ltb F v (f_inf F) = true) m ->
+  a < b -> b < m_obs M0 ->
+  (forall x y, x < y -> y < m_obs M0 -> ~ (x = a /\ y = b) -> f_ltb F (dcell KF M0 a b) (dcell KF M0 x y) = true) ->
+  exists t, nth_error (d_steps d') 0 = Some t /\ s_c1 t = a /\ s_c2 t = b
+    /\ eqv (f_ltb F) (s_dis t) (dcell KF M0 a b).
+Proof.
+  intros Hn32 Hrun HM0 Hok Hfin Hab Hb Hmin.
+  destruct (@sub_run p a0 s d m n s' d' m' M0 Hrun HM0 Hok Hfin) as (m1 & ss & ds & ms & M1 & Hm1 & Hrun1 & Hd & HM1 & HM01 & Hfin1).
+  assert (Hobs : m_obs M0 = m_obs M1) by (rewrite HM01; reflexivity).
+  destruct (@single_first_step_probe sub FS p FS_irrefl FS_trans FS_negtrans KS_eqb_nlt FS_eqb_refl a0
+              (st_new sub) (d_new sub 0) m1 n ss ds ms M1 a b Hn32 Hrun1 HM1 Hfin1 Hab ltac:(lia)) as (t & Et & E1 & E2 & Ev).
+  - intros x y Hxy Hy Hne. pose proof (Hmin x y Hxy ltac:(lia) Hne) as H. rewrite HM01, !dcell_map in H. exact H.
+  - exists (map_step g t). rewrite Hd. unfold map_dend. cbn [d_steps]. rewrite nth_error_map, Et. split; [reflexivity|].
+    cbn [map_step s_c1 s_c2 s_dis]. split; [exact E1|]. split; [exact E2|]. rewrite HM01, dcell_map. exact Ev.
+Qed.
+
+Theorem single_second_step_probe_carrier (p : profile) (a0 : algo) s d (m : list T) (n : N) s' d' m' M0 (a b c e : nat) :
+  (n < two32)%N ->
+  run_with F p a0 Single s d m n = Ok (s', d', m') ->
+  prologue p m n = Ok M0 ->
+  Forall (fun v => ok v = true) m ->
+  Forall (fun v => f_ltb F v (f_inf F) = true) m ->
+  a < b -> b < m_obs M0 -> c < e -> e < m_obs M0 -> ~ (c = a /\ e = b) ->
+  (forall x y, x < y -> y < m_obs M0 -> ~ (x = a /\ y = b) -> f_ltb F (dcell KF M0 a b) (dcell KF M0 x y) = true) ->
+  (forall x y, x < y -> y < m_obs M0 -> ~ ((x = a /\ y = b) \/ (x = c /\ y = e)) -> f_ltb F (dcell KF M0 c e) (dcell KF M0 x y) = true) ->
+  exists t1, nth_error (d_steps d') 1 = Some t1
+    /\ labi (m_obs M0) (d_steps d') 1 c <> labi (m_obs M0) (d_steps d') 1 e
+    /\ labi (m_obs M0) (d_steps d') 2 c = labi (m_obs M0) (d_steps d') 2 e
+    /\ ((s_c1 t1 = labi (m_obs M0) (d_steps d') 1 c /\ s_c2 t1 = labi (m_obs M0) (d_steps d') 1 e)
+        \/ (s_c1 t1 = labi (m_obs M0) (d_steps d') 1 e /\ s_c2 t1 = labi (m_obs M0) (d_steps d') 1 c))
+    /\ eqv (f_ltb F) (s_dis t1) (dcell KF M0 c e).
+Proof.
+  intros Hn32 Hrun HM0 Hok Hfin Hab Hb Hce He Hne Hmin Hmin2.
+  destruct (@sub_run p a0 s d m n s' d' m' M0 Hrun HM0 Hok Hfin) as (m1 & ss & ds & ms & M1 & Hm1 & Hrun1 & Hd & HM1 & HM01 & Hfin1).
+  assert (Hobs : m_obs M0 = m_obs M1) by (rewrite HM01; reflexivity).
+  destruct (@single_second_step_probe sub FS p FS_irrefl FS_trans FS_negtrans KS_eqb_nlt FS_eqb_refl a0
+              (st_new sub) (d_new sub 0) m1 n ss ds ms M1 a b c e Hn32 Hrun1 HM1 Hfin1 Hab ltac:(lia) Hce ltac:(lia) Hne)
+    as (t1 & Et & L1 & L2 & Lc & Ev).
+  - intros x y Hxy Hy N. pose proof (Hmin x y Hxy ltac:(lia) N) as H. rewrite HM01, !dcell_map in H. exact H.
+  - intros x y Hxy Hy N. pose proof (Hmin2 x y Hxy ltac:(lia) N) as H. rewrite HM01, !dcell_map in H. exact H.
+  - exists (map_step g t1). rewrite Hd. unfold map_dend. cbn [d_steps]. rewrite nth_error_map, Et, !labi_map, Hobs.
+    split; [reflexivity|]. cbn [map_step s_c1 s_c2 s_dis]. split; [exact L1|]. split; [exact L2|]. split; [exact Lc|].
+    rewrite HM01, dcell_map. exact Ev.
 Qed.
 
 End Sub.
